@@ -41,13 +41,20 @@ RULE = (
     "runs); to bound memory the non-trivial key is (part, orbit, S): the 9-10 targets / 17 attributes of one source "
     "form are counted under one key, every one of them is an evaluation."
 )
-RULE = RULE + RULE_HISTORY
+RULE = RULE + RULE_HISTORY + (
+    " Frame part: every Earth-centred orbit of the sub-product x every source form: copy(frame=), copy(frame=, form=T) for all T, "
+    "in-place frame assignment and the way back, to a LINKED frame whose centre carries another body (mu = 1.3 x Earth, constant "
+    "offset): numbers vs textbook definitions with the NEW mu, infos likewise. Name part: every documented form name and alias in "
+    "lower / UPPER / Title case through copy(form=), the setter and the constructor."
+)
 BOUNDS = {
     "quick": "4 bodies x 13 e x 5 i x 2 node x 2 perigee x 5 (ellipse) / 6 (hyperbola) anomalies: all 100/81 pairs, "
     "setter, back conversion, infos in every source form; all 1000/729 walks on the sub-product with 2 bodies x 3 i; "
-    "hyperbolic anomalies 0.5, -4, 20, +-1000, +-5000; Infos histories: 7 operations, depth <= 3, 3 orbits x every source form",
+    "hyperbolic anomalies 0.5, -4, 20, +-1000, +-5000; Infos histories: 7 operations, depth <= 3, 3 orbits x every source form; "
+    "frame changes to another central body: 405 Earth orbits (13 e x 5 i x 5/7 anomalies) x every form; 14 form names x 3 cases x 3 routes on 13 orbits",
     "thorough": "full alphabets 4 bodies x 13 e x 5 i x 4 node x 4 perigee x 9 (ellipse) / 10 (hyperbola) anomalies "
-    "(12 hyperbolic anomalies incl. +-1000, +-5000) for pairs/setter/back/infos and for all walks; Infos histories: depth <= 4, 4 orbits",
+    "(12 hyperbolic anomalies incl. +-1000, +-5000) for pairs/setter/back/infos and for all walks; Infos histories: depth <= 4, 4 orbits; frame changes to another "
+    "central body on all 11 280 Earth orbits of the full product, form names on the M = 0.5, i = 0.9 ones",
 }
 ASSUMPTIONS = [
     "element definitions are those documented in beyond/orbits/forms.py (equatorial spherical form, l = true longitude, "
@@ -103,6 +110,19 @@ INFO_A_ONLY = ("r", "v", "energy", "n", "vinf", "dinf")
 
 _W = {}
 
+# position / velocity of the centre of the linked frame VfHeavyI relative to the Earth's centre (EME2000 axes)
+LINK_OFFSET = [2.0e5, -1.0e5, 5.0e4, 3.0, -2.0, 1.0]
+MU_FORMS = ("keplerian", "keplerian_eccentric", "keplerian_mean", "keplerian_circular", "keplerian_mean_circular", "equinoctial", "tle")
+# every documented name of a form (beyond/orbits/forms.py and the user documentation) -> the form it denotes
+FORM_NAMES = {
+    "cartesian": "cartesian", "spherical": "spherical", "cylindrical": "cylindrical", "keplerian": "keplerian",
+    "keplerian_eccentric": "keplerian_eccentric", "eccentric": "keplerian_eccentric",
+    "keplerian_mean": "keplerian_mean", "mean": "keplerian_mean",
+    "keplerian_circular": "keplerian_circular", "circular": "keplerian_circular",
+    "keplerian_mean_circular": "keplerian_mean_circular", "mean_circular": "keplerian_mean_circular",
+    "equinoctial": "equinoctial", "tle": "tle",
+}
+
 
 def _forms():
     from mc.ref import forms_ref
@@ -151,6 +171,13 @@ def units(tier, seed):
                 continue
             for first in H_OPS:
                 u.append((cfg, dict(part="hist", orbit=list(orb), S=S, first=first, depth=H_DEPTH[tier])))
+    # frame changes to a frame of another central body + form names: Earth-centred orbits of the pair part
+    forbs = [o for o in orbit_list(tier, "pair") if o[0] == "earth" and (tier != "quick" or (o[3] == 1.0 and o[4] == 0.7))]
+    nfr = 16 if tier == "quick" else 48
+    for k in range(nfr):
+        chunk = forbs[k::nfr]
+        if chunk:
+            u.append((cfg, dict(part="frame", orbits=chunk)))
     return u
 
 
@@ -169,6 +196,12 @@ def setup(config):
         frames.Frame("VfSunI", orient.EME2000, center.Center("VfSunC", body=constants.Sun))
         test = constants.Body("VfTest", mass=1e3 / constants.G, equatorial_radius=1.0)
         frames.Frame("VfTestI", orient.EME2000, center.Center("VfTestC", body=test))
+        # a frame LINKED to the Earth-centred ones (so that frame changes work) whose centre carries another body:
+        # constant offset from the Earth's centre, same orientation as EME2000, mu = 1.3 x Earth
+        heavy = constants.Body("VfHeavy", mass=1.3 * constants.Earth.mass, equatorial_radius=7.0e6)
+        c = center.Center("VfHeavyC", body=heavy)
+        c.add_link(center.Earth, orient.EME2000, np.array(LINK_OFFSET))
+        frames.Frame("VfHeavyI", orient.EME2000, c)
     from beyond.dates import Date
 
     _W["date"] = Date(2020, 1, 1)
@@ -620,6 +653,164 @@ def check_history(orb, S, ops, t):
                        "history infos.")
     t.outcome(("hist", len(ops), R["conic"], tuple(sorted(set(ops)))))
 
+
+# ---------------------------------------------------------------------------
+# frame changes between frames whose centres carry DIFFERENT bodies (the mu-dependent forms must be re-expressed
+# with the new mu), and the names under which a form can be requested
+
+
+def _R_of_state(rv, mu, frame):
+    """Reference description (same layout as ref_orbit) of an arbitrary cartesian state; None outside the domain."""
+    from mc.ref import twobody as tb
+
+    fr = _forms()
+    k = tb.cart_to_kep(rv, mu)
+    e, inc = float(k["e"]), float(k["i"])
+    if not ((1e-4 * (1 - 1e-9) <= e <= 0.99 or 1.001 <= e <= 20) and 0.01 * (1 - 1e-9) <= inc <= math.pi - 0.01 * (1 - 1e-9)):
+        return None
+    forms = [f for f in fr.FORMS if not (e > 1 and f in ("tle", "keplerian_mean_circular"))]
+    return dict(mu=mu, rv=np.asarray(rv, dtype=float), forms=forms, expected={f: fr.from_cart(f, rv, mu) for f in forms}, e=e, i=inc,
+                rn=float(np.linalg.norm(rv[:3])), vn=float(np.linalg.norm(rv[3:])), cond=1 + 1 / abs(1 - e),
+                conic="ell" if e < 1 else "hyp", frame=frame)
+
+
+def _state_ok(R2, form, arr):
+    """(ok, text) of library numbers `arr` in `form` against the reference state R2."""
+    if not _finite(arr):
+        return False, "non-finite numbers", float("inf")
+    er, ev = cart_err(R2, form, arr)
+    ee, j = elem_err(R2, form, arr)
+    tol = TOL_CART[R2["conic"]] * R2["cond"]
+    ok = max(er, ev) <= tol and ee <= TOL_ELEM[R2["conic"]] * R2["cond"]
+    return ok, f"|dr|/r={er:.3e} |dv|/v={ev:.3e}; worst element #{j} off by {ee:.3e} x scale (tol {tol:.1e})", max(er, ev, ee) / tol
+
+
+def check_frame(orb, S, t):
+    """Earth-centred state in form S -> frame VfHeavyI (other mu, constant offset) by copy(frame=), copy(frame=, form=),
+    in-place assignment, and back."""
+    from beyond.frames.frames import get_frame
+
+    fr = _forms()
+    R = ref_orbit(orb)
+    mu2 = float(get_frame("VfHeavyI").center.body.mu)
+    rv2 = R["rv"] - np.array(LINK_OFFSET)  # textbook: translation to the new origin, same axes
+    R2 = _R_of_state(rv2, mu2, "VfHeavyI")
+    case = dict(kind="frame", orbit=list(orb), S=S, config={"frames": "c01"})
+    if R2 is None or S not in R2["forms"] or S not in R["forms"]:
+        t.exclude("frame change: state outside the property's domain of e / i around the new body, or form undefined for its conic")
+        return
+    cls = "mu-dependent-form" if S in MU_FORMS else "geometric-form"
+    clause = "each form's six numbers equal their textbook definitions computed from the cartesian state (central body of the state's frame)"
+    t.states_add(1)
+    t.ev(("frame",) + tuple(orb) + (S,))
+    body_r2 = float(get_frame("VfHeavyI").center.body.r)
+
+    def examine(obj, Rx, frame, form, what, kind):
+        arr = np.array(obj, dtype=float)
+        if obj.frame.name != frame or obj.form.name != form:
+            t.fail(f"frame-change/{kind}/label", clause, case, [frame, form], [obj.frame.name, obj.form.name], what)
+            return False
+        ok, txt, ratio = _state_ok(Rx, form, arr)
+        if ok:
+            t.margin(f"frame change ({kind}): state and elements vs reference with the new body's mu [rel/cond]", ratio, 1.0, case)
+        else:
+            t.fail(f"frame-change/{kind}/{cls}", clause, case, Rx["expected"][form], arr, f"{what}: {txt}")
+        return ok
+
+    # copy(frame=)
+    src = _sv(R, S, R["nums"][S])
+    try:
+        c = src.copy(frame="VfHeavyI")
+        t.trans()
+    except Exception as ex:
+        t.fail(f"frame-change/copy/raises", clause, case, None, repr(ex), f"{S}: copy(frame='VfHeavyI') raised {ex!r}")
+        return
+    if examine(c, R2, "VfHeavyI", S, f"{S} in EME2000 -> copy(frame='VfHeavyI')", "copy"):
+        ref2 = fr.infos_ref(rv2, mu2)
+        _compare_infos(t, c.infos, ref2, R2["conic"], R2["cond"], body_r2, case, lambda name, kind: f"frame-change/infos/{cls}", None,
+                       f"infos of the {S} state after copy(frame='VfHeavyI')", "frame change infos.")
+        # and back
+        try:
+            b = c.copy(frame="EME2000")
+            t.trans()
+            examine(b, R, "EME2000", S, f"{S}: EME2000 -> VfHeavyI -> EME2000", "back")
+        except Exception as ex:
+            t.fail(f"frame-change/back/raises", clause, case, None, repr(ex), f"{S}: way back raised {ex!r}")
+    # in-place assignment
+    inp = _sv(R, S, R["nums"][S])
+    try:
+        inp.frame = "VfHeavyI"
+        t.trans()
+        examine(inp, R2, "VfHeavyI", S, f"{S} in EME2000, sv.frame = 'VfHeavyI'", "setter")
+    except Exception as ex:
+        t.fail(f"frame-change/setter/raises", clause, case, None, repr(ex), f"{S}: sv.frame = 'VfHeavyI' raised {ex!r}")
+    # copy(frame=, form=T)
+    for T in R2["forms"]:
+        try:
+            d = _sv(R, S, R["nums"][S]).copy(frame="VfHeavyI", form=T)
+            t.trans()
+        except Exception as ex:
+            t.fail(f"frame-change/copy-form/raises", clause, case, None, repr(ex), f"{S}: copy(frame='VfHeavyI', form='{T}') raised {ex!r}")
+            continue
+        t.ev()
+        examine(d, R2, "VfHeavyI", T, f"{S} in EME2000 -> copy(frame='VfHeavyI', form='{T}')", "copy-form")
+    t.outcome(("frame", S, R["conic"], R2["conic"]))
+
+
+def name_variants(name):
+    return [name, name.upper(), name.title()]
+
+
+def check_names(orb, t):
+    """Every name of a form, in any case, through copy(form=), the setter and the constructor."""
+    from beyond.orbits import StateVector
+    from beyond.orbits import forms as libforms
+
+    R = ref_orbit(orb)
+    table = dict(FORM_NAMES)
+    for key in libforms._cache:  # data: the names the library accepts
+        if key not in table:
+            t.cap(f"form name {key!r} accepted by the library is not in the documented table: not examined")
+    clause = "a state requested in a form (by any of its names) is in that form"
+    for alias, canon in sorted(table.items()):
+        if canon not in R["forms"]:
+            t.exclude("form name x hyperbolic orbit: form not defined for hyperbolas")
+            continue
+        for name in name_variants(alias):
+            case = dict(kind="names", orbit=list(orb), config={"frames": "c01"})
+            sig = f"form-name/{alias}"
+            t.states_add(1)
+            t.ev(("name",) + tuple(orb) + (name,))
+            for route in ("copy", "setter", "constructor"):
+                what = f"{route} with form name {name!r} (denotes {canon})"
+                try:
+                    if route == "copy":
+                        obj = _sv(R, "cartesian", R["nums"]["cartesian"]).copy(form=name)
+                    elif route == "setter":
+                        obj = _sv(R, "cartesian", R["nums"]["cartesian"])
+                        obj.form = name
+                    else:
+                        obj = StateVector(R["nums"][canon], _W["date"], name, R["frame"])
+                    t.trans()
+                except Exception as ex:
+                    t.fail(sig, clause, case, canon, repr(ex), f"{what} raised {ex!r}")
+                    continue
+                arr = np.array(obj, dtype=float)
+                ok = obj.form.name == canon and list(obj.form.param_names) == list(libforms._cache[canon].param_names)
+                if ok:
+                    ok, txt, ratio = _state_ok(R, canon, arr)
+                else:
+                    txt = f"form object is {obj.form.name!r}"
+                if not ok:
+                    t.fail(sig, clause, case, R["expected"][canon], [obj.form.name, arr], f"{what}: {txt}")
+                elif route == "constructor":
+                    # the numbers given must be read as the form they were given in
+                    back = np.array(obj.copy(form="cartesian"), dtype=float)
+                    ok2, txt2, _ = _state_ok(R, "cartesian", back)
+                    if not ok2:
+                        t.fail(sig, clause, case, R["expected"]["cartesian"], back, f"{what}, then copy(form='cartesian'): {txt2}")
+            t.outcome(("name", name))
+
 # ---------------------------------------------------------------------------
 
 
@@ -637,6 +828,14 @@ def run_unit(p, t):
         for ops in histories(p["depth"]):
             if ops and ops[0] == p["first"]:
                 check_history(orb, p["S"], ops, t)
+        return
+    if p["part"] == "frame":
+        for k, orb in enumerate(p["orbits"]):
+            orb = tuple(orb)
+            for S in ref_orbit(orb)["forms"]:
+                check_frame(orb, S, t)
+            if orb[2] == INC[1] and orb[5] in (0.5,):
+                check_names(orb, t)
         return
     for orb in p["orbits"]:
         orb = tuple(orb)
@@ -667,5 +866,9 @@ def replay(case, t):
         check_walks(orb, case["S"], case["X"], t)
     elif case["kind"] == "history":
         check_history(orb, case["S"], tuple(case["ops"]), t)
+    elif case["kind"] == "frame":
+        check_frame(orb, case["S"], t)
+    elif case["kind"] == "names":
+        check_names(orb, t)
     else:
         raise ValueError(case["kind"])
